@@ -1,5 +1,6 @@
 import RsModel.Model.Combined
 import RsModel.Lemmas.PosComb
+import RsModel.Lemmas.CombInner
 /-!
 # C09 — combined source maps compose outer and inner attribution
 (the pass-through and removal branches; the composition through the inner map is tied by correspondence)
@@ -47,37 +48,13 @@ theorem globalName_noChunk' (nm : Assoc) (n : Text) : ∀ e ∈ (globalName nm n
 
 /-! ## the search for the inner segment -/
 
-/-- the segments of one inner line are sorted by generated column (they are recorded in stream order, and streams are sorted: C02) -/
-def SegsSorted (segs : List InnerSeg) : Prop := ∀ i j, i ≤ j → j < segs.length → (segs.getD i default).gc ≤ (segs.getD j default).gc
-
 /-- **the hand-written bisection of `find_inner_mapping` is correct**: on a sorted line it returns the number of segments whose
 generated column is at or before `col` — so `l - 1` is the greatest such segment -/
 theorem c09_bisect_spec (segs : List InnerSeg) (col : Int) (hs : SegsSorted segs) : ∀ (fuel l r : Nat), l ≤ r → r ≤ segs.length → r - l < fuel →
     (∀ i, i < l → (segs.getD i default).gc ≤ col) → (∀ i, r ≤ i → i < segs.length → col < (segs.getD i default).gc) →
     (∀ i, i < bisect segs col fuel l r → (segs.getD i default).gc ≤ col)
-    ∧ (∀ i, bisect segs col fuel l r ≤ i → i < segs.length → col < (segs.getD i default).gc) := by
-  intro fuel
-  induction fuel with
-  | zero => intro l r _ _ h; omega
-  | succ n ih =>
-    intro l r h1 h2 h3 hlo hhi
-    simp only [bisect]
-    split
-    · rename_i hlr
-      split
-      · rename_i hm
-        apply ih _ _ (by omega) h2 (by omega)
-        · intro i hi
-          exact Int.le_trans (hs i ((l + r) / 2) (by omega) (by omega)) hm
-        · exact hhi
-      · rename_i hm
-        apply ih _ _ (by omega) (by omega) (by omega) hlo
-        intro i hi hlen
-        have := hs ((l + r) / 2) i hi hlen
-        omega
-    · have : l = r := by omega
-      subst this
-      exact ⟨hlo, hhi⟩
+    ∧ (∀ i, bisect segs col fuel l r ≤ i → i < segs.length → col < (segs.getD i default).gc) :=
+  bisect_spec segs col hs
 
 /-- `find_inner_mapping` returns the greatest segment of the line at or before the column, and none exactly when there is none -/
 theorem c09_findInner_spec (st : CombSt) (line column : Int) (h1 : 0 < line) (h2 : line.toNat ≤ st.lineData.length)
@@ -146,5 +123,28 @@ theorem c09_compose_chunk (cfg : CombCfg) (st : CombSt) (text : Option Text) (m 
 theorem c09_no_inner_removed (cfg : CombCfg) (st : CombSt) (text : Option Text) (m : Mapping) (a b c d : Int) (h : cfg.remove = true) :
     (combNoInner cfg st text m a b c d).2 = [Ev.chunk text ⟨m.gl, m.gc, none⟩] := by
   simp [combNoInner, h]
+
+
+/-! ## what is recorded, and what the search finds in it -/
+
+/-- **the inner line data**: after the inner stream has been consumed (`combInnerEv` over its events), generated line `L` holds the
+chunk mappings of the inner stream on line `L`, in stream order, appended to what was there -/
+theorem c09_recorded (evs : List Ev) (st : CombSt) (L : Nat) (hL : 1 ≤ L) (h1 : ∀ m ∈ chunkMs evs, 1 ≤ m.gl) :
+    segsAt (evs.foldl combInnerEv st).lineData L = segsAt st.lineData L ++ ((chunkMs evs).filter fun m => m.gl == L).map toSeg :=
+  fold_segs evs st L hL h1
+
+/-- **the search answers the lookup**: `find_inner_mapping (L, C)` finds the segment recorded for exactly the mapping that the
+lookup "last chunk mapping of the inner stream on line `L` at or before column `C`" finds, and nothing exactly when that lookup
+finds nothing (`ms` = the inner stream's chunk mappings, sorted by C02).  With C08 (`c08_attribution`: the inner stream's chunks
+attribute like lookups in the inner map) this is "attributed to what the inner map assigns to that position". -/
+theorem c09_search_is_lookup (st : CombSt) (ms : List Mapping) (hsort : ms.Pairwise mle) (L C : Nat) (hL : 1 ≤ L)
+    (hseg : segsAt st.lineData L = (ms.filter fun m => m.gl == L).map toSeg)
+    (hlen : st.lineData.length < L → (ms.filter fun m => m.gl == L) = []) :
+    match findInner st L C with
+    | some idx => idx < (ms.filter fun m => m.gl == L).length
+        ∧ (st.lineData.getD (L - 1) default).segs.getD idx default = toSeg ((ms.filter fun m => m.gl == L).getD idx default)
+        ∧ lookupGo L C none ms = some ((ms.filter fun m => m.gl == L).getD idx default).orig
+    | none => lookupGo L C none ms = none :=
+  findInner_lookup st ms hsort L C hL hseg hlen
 
 end Rs
